@@ -99,6 +99,8 @@ func decodeCfgCase(s string) (cfgCase, bool) {
 			for _, h := range strings.Split(p[1], ",") {
 				ls = append(ls, string(unhx(h)))
 			}
+		} else {
+			ls = []string{""} // what ParseConfigLines makes of an empty output
 		}
 		cc.Sources = append(cc.Sources, ls)
 		cc.Safe = append(cc.Safe, p[0] == "1")
@@ -171,6 +173,10 @@ func c11(c *Ctx) {
 				// possibly the empty one (the way to cancel a setting the repository supplies)
 				k := strings.SplitN(Pick(r, cc.Sources[0]), "=", 2)[0]
 				ls = append(ls, k+"="+Pick(r, []string{"", "", "mine", "false"}))
+			}
+			if r.Chance(4) {
+				ls = []string{""} // an empty file: `git config -l -f` prints nothing, which is read as ONE empty line
+				c.R.Count("source.empty-file")
 			}
 			cc.Sources = append(cc.Sources, ls)
 			cc.Safe = append(cc.Safe, s == 0 && (ns == 2 || r.Chance(80)))
@@ -249,6 +255,9 @@ func c11(c *Ctx) {
 				// Git's own value for the key, read off the lines themselves
 				own, ok := "", false
 				for _, l := range cc.Sources[1] {
+					if l == "" {
+						continue // an empty file's one empty "line": no key
+					}
 					kv := strings.SplitN(l, "=", 2)
 					if len(kv) == 1 {
 						kv = append(kv, "true") // a value-less key is the boolean true
@@ -401,7 +410,7 @@ func c11EndToEnd(c *Ctx, r *Rng) {
 		{"remote.a.b.url", "http://evil.example/r"}, {"remote.a.b.pushurl", "http://evil.example/p"}, {"remote.lfsdefault", "evil"},
 		{"filter.lfs.clean", "SENTINEL"}, {"foo.bar.access", "basic"}, {"lfs.concurrenttransfers", "1"}, {"lfs.tustransfers", "true"},
 	}
-	n := c.N(24, 200)
+	n := c.N(26, 200)
 	for i := 0; i < n; i++ {
 		dir := filepath.Join(c.Work, fmt.Sprintf("e2e%d", i))
 		if err := gitInit(dir); err != nil {
@@ -420,6 +429,10 @@ func c11EndToEnd(c *Ctx, r *Rng) {
 		var picks [][2]string
 		if i < len(hostile) {
 			picks = append(picks, hostile[i])
+		} else if i == len(hostile) || r.Chance(8) {
+			// an EMPTY .lfsconfig: no key at all — nothing may change and nothing may be reported as ignored
+			os.WriteFile(filepath.Join(dir, ".lfsconfig"), nil, 0o644)
+			c.R.Count("e2e.empty-file")
 		} else {
 			for k := 0; k < 1+r.Intn(3); k++ {
 				picks = append(picks, Pick(r, hostile))
@@ -463,6 +476,9 @@ func c11EndToEnd(c *Ctx, r *Rng) {
 		c.R.Count("e2e." + loc)
 		if _, err := os.Stat(sentinel); err == nil {
 			c.R.Add(Finding{Kind: "oracle", What: "end-to-end: a program named only in .lfsconfig was executed", Case: caseDesc})
+		}
+		if len(picks) == 0 && strings.Contains(got, "unsafe") {
+			c.R.Add(Finding{Kind: "oracle", What: "end-to-end: an EMPTY .lfsconfig is reported to contain an ignored unsafe key", Case: caseDesc, Impl: clip(got, 300)})
 		}
 		if stripEnv(got) != stripEnv(base) {
 			c.R.Add(Finding{Kind: "oracle", What: "end-to-end: keys outside the documented allow-list changed the effective configuration (git lfs env): " + strings.Join(desc, ","), Case: caseDesc, Impl: clip(diffLines(stripEnv(base), stripEnv(got)), 600)})
